@@ -155,6 +155,7 @@ structure Trans where
   m : ModId
   src : MState
   dst : MState
+  out : Bool := false     -- the module was already taken out of its context's table (deregistration in progress)
   deriving DecidableEq, Repr, Inhabited
 
 /-- one entry of a recorded poll result, by script handle (parsed by the driver from `ps:h1`, `fd:h1:5`,
